@@ -361,4 +361,24 @@ theorem C16_pilot_close_keeps_channels (sides : List Nat) (hn : sides.Nodup) (fu
 /-- the guard matters: were every closing side to send the request, nobody would be connected afterwards -/
 example : sidesAfterClose false [0, 1, 2] 1 = [] ∧ sidesAfterClose true [0, 1, 2] 1 = [0, 2] := by decide
 
+/-! ## a side that connects while the others exchange messages -/
+
+/-- **nothing received is lost during set-up**: with the code as it is (`Gen.forwarderPublisherFirst`: the publisher
+    of a forwarder exists before the subscriber that feeds it), whenever a message reaches the forwarder's closure
+    - at whatever point of the set-up its subscription went live - the closure can publish it -/
+theorem C16_setup_no_loss (i : Nat) :
+    (setupRun (withArrivalAt (setupOrder Gen.forwarderPublisherFirst) i)).received = true →
+    (setupRun (withArrivalAt (setupOrder Gen.forwarderPublisherFirst) i)).forwarded = true := by
+  have e : Gen.forwarderPublisherFirst = true := by decide
+  rw [e]
+  match i with
+  | 0 => decide
+  | 1 => decide
+  | (k + 2) => simp [withArrivalAt, setupOrder, setupRun, setupStep]
+
+/-- the order matters: with the subscriber first a message can be received and not forwarded -/
+theorem C16_setup_witness :
+    (setupRun (withArrivalAt (setupOrder false) 1)).received = true
+    ∧ (setupRun (withArrivalAt (setupOrder false) 1)).forwarded = false := by decide
+
 end RPVerif.C16
